@@ -92,7 +92,77 @@ def run_C01(ctx, rep):
     return {'cov': {'disagreements_checked': n}}
 
 
+def run_C07(ctx, rep):
+    sugar = ('t_neg_sugar', 't_wild_sugar', 't_pat_sugar', 't_rep_sugar', 't_rep2_sugar', 't_mh_sugar', 't_disj_sugar')
+    gen_driver.run_twins(ctx, rep, lambda n, k: n.replace('_par', '') in sugar, floors={'T.C': 8, 'T.L': 4})
+    gen_driver.run_tv(ctx, rep, only_tags=['twin', 'repeated', 'wild', 'patarg', 'multihead', 'facts', 'consts', 'neg'], floors={'R1': 60})
+
+
+def run_C08(ctx, rep):
+    gen_driver.run_twins(ctx, rep, lambda n, k: n.replace('_par', '') in ('t_mac_sugar',), floors={'T.L': 2})
+    gen_driver.run_tv(ctx, rep, only_tags=['twin'], floors={'R1': 40})
+    witness_rules.run_witnesses(ctx, rep, ctx.tier, kinds=('macro_self_rec', 'macro_mutual_rec', 'macro_head_rec'))
+
+
+def run_C09(ctx, rep):
+    names = ('pk_ascent', 'pk_ascent_par', 'pk_init_ascent', 'timeout', 'timeout_par', 'ruletimes', 't_redecl', 't_redecl_clear', 'generic',
+             'inc_start', 'inc_mid', 'inc_end', 'inc_start_par', 'inc_mid_par', 'inc_end_par')
+    gen_driver.run_twins(ctx, rep, lambda n, k: n in names, floors={'T.C': 13})
+    gen_driver.run_gen(ctx, rep, ['G2G7', 'G8'], floors={'G7': 6, 'G8': 60})
+
+
+def run_C06(ctx, rep):
+    names = ('t_perm_rules', 't_perm_decls', 't_perm_heads', 't_perm_body', 't_renamed', 'generic')
+    gen_driver.run_twins(ctx, rep, lambda n, k: n.replace('_par', '') in names, floors={'T.L': 4, 'T.S': 4, 'T.C': 2})
+    gen_driver.run_tv(ctx, rep, floors={'R3': 80})
+    gen_driver.run_gen(ctx, rep, ['G12'], floors={'G12': 40})
+    lib_rules.check_L13(ctx, rep)
+
+
 PROPS = {
+    'C07': {
+        'run': run_C07, 'level': 'translation_validation',
+        'explanation': 'twin comparison of the current macro\'s output for each sugared form and its documented core expansion: `!r` vs agg () = not(), '
+                       '`_` vs fresh variable, `?pat` vs fresh variable + if-let, repeated variable / same-clause expression vs fresh variable + '
+                       'equality test (normalised generated code identical, alpha-renaming of bindings); multi-head rule vs one rule per head, '
+                       'disjunctions (incl. nested, with negation) vs the product of rules (reconstructed logical rule variants identical); serial '
+                       'and parallel; plus R1 on the core side (the expansion itself evaluates the rule text).',
+        'assumptions': ['forms outside the enumerated combinations are not covered'],
+        'rule_text': 'one instance = one twin pair (T.*) / one translation-validated rule variant (R1)',
+        'technique': 'static: twin comparison of normalised typed HIR of two macro expansions + translation validation',
+    },
+    'C08': {
+        'run': run_C08, 'level': 'translation_validation',
+        'explanation': 'hygiene of in-program macros: the program with macro invocations (same macro twice in a rule, call-site variable spelled like a '
+                       'macro-local one, macro inside a disjunction and again later in the rule, macro-local variables in let / if, nested macros, '
+                       'macro in head position, ident and expr parameters) and its hand expansion with explicitly fresh names reconstruct to identical '
+                       'logical rule variants (binding identity by id, alpha-renaming); the hand expansion is translation-validated (R1); self-, '
+                       'mutually- and head-recursive macros are rejected (compile witnesses).',
+        'assumptions': ['macro bodies beyond the enumerated shapes are not covered'],
+        'rule_text': 'one instance = one twin pair / one witness / one validated rule variant',
+        'technique': 'static: twin comparison of reconstructed logical rules + compile-fail witnesses',
+    },
+    'C09': {
+        'run': run_C09, 'level': 'translation_validation',
+        'explanation': 'packaging variants expand to identical normalised code: ascent!+run() vs ascent_run! (serial, parallel, with relation '
+                       'initialisers), include_source! at the start / middle / end vs pasted text (serial and parallel), generate_run_timeout and '
+                       'measure_rule_times on vs off (only the deadline exits / timing statements differ: G7), re-declared relation vs last '
+                       'declaration only (initialiser included), generic vs monomorphic signature (logical rules); G8 for initialised relations.',
+        'assumptions': ['the segment-codegen feature only toggles an inline attribute (not re-derived here)'],
+        'rule_text': 'one instance = one twin pair / one stratum exit / one prologue',
+        'technique': 'static: twin comparison of normalised typed HIR of two macro expansions',
+    },
+    'C06': {
+        'run': run_C06, 'level': 'translation_validation',
+        'explanation': 'plan independence and parametricity: both run-time join orders of every reorderable rule evaluate the same rule (R3), the '
+                       'empty-relation shortcut only tests relations that a positive clause reads and is_empty is exact (G12, L13); permuted rules / '
+                       'declarations / head clauses expand to the same logical rule variants (twins), permuted independent body items and a '
+                       'consistently renamed program are each translation-validated against specs that are equal as sets; the generic-column-type '
+                       'twin type-checks and evaluates the same logical rules as the monomorphic program.',
+        'assumptions': ['independence of HashMap iteration order beyond set semantics is not decided', 'identifiers reserved by generated code aside'],
+        'rule_text': 'one instance = one plan choice (R3) / one twin pair / one guard operand',
+        'technique': 'static: translation validation + twin comparison; no execution',
+    },
     'C01': {
         'run': run_C01, 'level': 'translation_validation',
         'explanation': 'static translation validation of the generated evaluation code of every corpus program against its logical spec (derived '
